@@ -78,6 +78,17 @@ MIXES = {
 }
 
 
+def something_missing(f, S):
+    """Some density / diameter / potential / closure / omega entry, or the domain, is unset."""
+    flags = [f.is_none(f.getattr(S, 'domain'))]
+    for tab in (f.getattr(f.getattr(S, 'density'), 'density'), f.getattr(f.getattr(S, 'diameter'), 'diameter')):
+        flags += [f.is_none(v) for v in f.getattr(tab, 'values').values()]
+    for nm in ('potential', 'closure', 'omega'):
+        for row in f.getattr(f.getattr(S, nm), 'values').values():
+            flags += [f.is_none(v) for v in row.values()]
+    return f.Or(*flags)
+
+
 def mk_System(f, n, mix=None, complete=True, with_domain=True):
     """A System of n types.  complete=True: fully specified with real closure / potential / omega objects;
     complete=False: every table entry (and the domain) may or may not be set (symbolic), values opaque."""
@@ -390,8 +401,10 @@ def System_createPRISM(self):
 @cases(System_createPRISM)
 def _create_cases():
     def build_partial(f):
-        return dict(self=mk_System(f, 2, complete=False))
-    yield 'types=2, any subset of the specifications missing', build_partial
+        S = mk_System(f, 2, complete=False)
+        f.assume(something_missing(f, S))
+        return dict(self=S)
+    yield 'types=2, any non-empty subset of the specifications missing', build_partial
     for n in (1, 2):
         def build(f, n=n):
             return dict(self=mk_System(f, n, mix=MIXES[n][0]))
@@ -410,8 +423,10 @@ def System_solve(self, *args, **kwargs):
 @cases(System_solve)
 def _sys_solve_cases():
     def build_partial(f):
-        return dict(self=mk_System(f, 2, complete=False))
-    yield 'types=2, any subset of the specifications missing', build_partial
+        S = mk_System(f, 2, complete=False)
+        f.assume(something_missing(f, S))
+        return dict(self=S)
+    yield 'types=2, any non-empty subset of the specifications missing', build_partial
     def build(f):
         S = mk_System(f, 1, mix=MIXES[1][0])
         N = f.getattr(f.getattr(S, 'domain'), '_length')
